@@ -552,9 +552,7 @@ def h_deep(eng, case):
     eng.check(Iff(g, expect), 'verdict-equals-chain-predicate',
               {'fault': case['fault'], 'depth': D, 'link': case['link'], 'got': repr(got)},
               sig='%s:%s:%s' % ('accepts' if got else 'rejects', case['fault'], why[0] if (why and got) else ''))
-    # certificates are asked for by exactly the names the chain mentions, each at most once per validation
-    asked = list(face.requests)
-    eng.check(len(asked) == len(set(asked)), 'each-certificate-fetched-once', {'asked': len(asked)})
+    eng.observe('requests', len(face.requests))       # (how often a certificate is asked for is not part of the statement)
     if loop.errors:
         exc = loop.errors[0].get('exception')
         eng.fail('no-unhandled-error-in-loop', exc_sig(exc) if exc is not None else '?')
